@@ -2472,7 +2472,7 @@ Plan generate(const std::string& prop, std::uint64_t seed, int tier) {
         "C01", "C02", "C03", "C04", "C05", "C17", "C18"};
     static const char* const lenders[] = {
         "C01", "C02", "C03", "C04", "C05", "C06", "C07", "C08",
-        "C09", "C10", "C14", "C15", "C17", "C18"};
+        "C09", "C10", "C12", "C13", "C14", "C15", "C17", "C18"};
     std::string from = prop;
     if (borrowers.count(prop) && mix3(seed, 0xB0220, 2) % 8 == 0)
         from = lenders[mix3(seed, 0xB0220, 3) %
